@@ -853,7 +853,7 @@ pub fn replay(ctx: &mut Ctx, d: &J) -> Option<()> {
     }
     let f = fmt_of(d)?;
     match jstr(d, "kind")?.as_str() {
-        "big-batch" => {}
+        "big-batch" => super::rerun_fixed(ctx),
         "blank-variant" => blank_variant_check(ctx, f),
         "same-start-slices" => {
             let full = jstr(d, "input")?;
